@@ -573,9 +573,19 @@ fn index_items(idx: &mut Index, module: &[String], file: &str, items: &[Item], t
                     Some(s) => s,
                     None => continue,
                 };
-                let impl_generic = !im.generics.params.is_empty();
+                let mut impl_generic = !im.generics.params.is_empty();
                 let mut bind: HashMap<String, Ty> = HashMap::new();
-                let self_conv = conv_type(&im.self_ty, &HashMap::new());
+                let mut self_conv = conv_type(&im.self_ty, &HashMap::new());
+                let mut sty = sty;
+                // `impl<T: IntoIterator<Item: Borrow<f64>>> Statistics<f64> for T` — modelled on lists of f64
+                let is_iter_stats = impl_generic
+                    && sty == "T"
+                    && im.trait_.as_ref().map(|(_, p, _)| p.segments.last().unwrap().ident == "Statistics").unwrap_or(false);
+                if is_iter_stats {
+                    impl_generic = false;
+                    self_conv = Ty::List(Box::new(Ty::F64));
+                    sty = "IterStatistics".to_string();
+                }
                 let self_ty_resolved = match &self_conv {
                     Ty::Unknown(_) => Ty::Struct(sty.clone()),
                     t => t.clone(),
